@@ -670,6 +670,12 @@ func (n *simNode) boot() {
 			n.markerCut = false
 		}
 	}
+	if rs := n.cs.GetRoundState(); n.inc > 0 && rs.Round >= 1 {
+		s.env.Count("probe.restart_into_round_ge1")
+		if s.cfg.Bool("real_ticker") {
+			s.env.Count("probe.restart_into_round_ge1_real_ticker")
+		}
+	}
 	if debugLog {
 		rs := n.cs.GetRoundState()
 		fmt.Fprintf(os.Stderr, "BOOTED %s at %d/%d/%d locked=%d\n", n.name, rs.Height, rs.Round, rs.Step, rs.LockedRound)
